@@ -5,7 +5,6 @@ import (
 	"crypto/sha256"
 	"fmt"
 	"io"
-	"math/rand"
 	"sort"
 	"strings"
 
@@ -398,9 +397,11 @@ func (m *monitor) stageBig(jobs *[]job) {
 			segs = append(segs, payload)
 			mpt, _, merr := refage.StreamDecrypt(rb.streamKey, payload)
 			e := &edited{base: rb, class: "big-keycrafted-counter", edit: v.name, segs: segs}
-			m.r.Distinct(rb.name + "|" + e.class + "|" + e.edit)
-			if o := m.judgeB(e, mpt, merr == nil); o != nil && o.clean() {
-				m.noteAccepted(e, payload)
+			for _, via := range e.kindPair() {
+				m.r.Distinct(rb.name + "|" + e.class + "|" + e.edit + "@" + via)
+				if o := m.judgeB(e.with(via), mpt, merr == nil); o != nil && o.clean() {
+					m.noteAccepted(e.with(via), payload)
+				}
 			}
 			m.r.SampleN("b:big", 3, map[string]any{"oracle": "b", "file": rb.name, "edit": v.name, "model_accepts": merr == nil})
 		}})
@@ -426,7 +427,8 @@ type symbol struct {
 
 // alphabet of DESIGN §4 C02: each own plaintext chunk, a 1-byte, a 65535-byte
 // and an empty chunk sealed with the file's real stream key under every
-// counter 0-3 x final flag, plus one chunk sealed under a foreign key.
+// counter 0-3 x final flag, plus one chunk sealed under a foreign key and one
+// stray byte.
 func (m *monitor) alphabet(b *base) []symbol {
 	var parts [][]byte
 	for lo := 0; ; lo += chunk {
@@ -472,6 +474,8 @@ func (m *monitor) alphabet(b *base) []symbol {
 	}
 	foreign := refage.SealChunk(mon.DetBytes("c02-foreign-key", 32), 0, false, mon.DetBytes("c02-foreign-pt", chunk))
 	out = append(out, symbol{"foreign", foreign, true})
+	// one stray byte: "every amount of trailing data" in sequence form
+	out = append(out, symbol{"junk1", []byte{0x5a}, true})
 	return out
 }
 
@@ -479,7 +483,7 @@ func (m *monitor) stageSequences(jobs *[]job) {
 	type plan struct{ n, quick, thorough int }
 	for _, p := range []plan{
 		{chunk + 100, 3, 4}, // one full chunk + a short final one
-		{2 * chunk, 3, 4},   // two full chunks, the final one full-size
+		{2 * chunk, 3, 3},   // two full chunks, the final one full-size
 		{0, 3, 4},           // the empty file: its only chunk is the empty final chunk
 		{10, 3, 3},          // one short chunk
 		{3*chunk + 5, 2, 3}, // four plaintext chunks: larger alphabet, shorter sequences
@@ -557,11 +561,14 @@ func (m *monitor) sequenceCase(b *base, alpha []symbol, seq []int, buf []byte) [
 	if feasible {
 		class = "sequence-own+foreign"
 	}
-	e := &edited{base: b, class: class, edit: ed, segs: segs}
-	m.r.Distinct(b.name + "|seq|" + ed)
-	o := m.judgeB(e, mpt, merr == nil)
-	if o != nil && o.clean() {
-		m.noteAccepted(e, payload)
+	e := &edited{base: b, class: class, edit: ed, segs: segs, long: len(seq) >= 4}
+	var o *outcome
+	for _, via := range e.kindPair() {
+		m.r.Distinct(b.name + "|seq|" + ed + "@" + via)
+		o = m.judgeB(e.with(via), mpt, merr == nil)
+		if o != nil && o.clean() {
+			m.noteAccepted(e.with(via), payload)
+		}
 	}
 	if merr == nil {
 		m.r.SampleN("b:accepted:"+b.name, 1, map[string]any{"oracle": "b", "file": b.name, "sequence": ed, "model": "accepts", "plaintext_len": len(mpt), "reader": fmt.Sprint(o)})
@@ -629,14 +636,17 @@ func (m *monitor) resplitCase(b *base, cuts []int, flags string) {
 	}
 	mpt, _, merr := refage.StreamDecrypt(b.streamKey, payload)
 	e := &edited{base: b, class: "resplit", edit: fmt.Sprintf("cuts=%v,final-flag=%s", cuts, flags), segs: [][]byte{b.head(), payload}}
-	m.r.Distinct(b.name + "|resplit|" + e.edit)
 	if merr == nil {
 		// a different byte string carrying the same plaintext cannot be canonical
 		m.r.Inconclusive("%s %s: the model accepts a non-canonical chunking (model defect)", b.name, e.edit)
 	}
-	o := m.judgeB(e, mpt, merr == nil)
-	if o != nil && o.clean() {
-		m.noteAccepted(e, payload)
+	var o *outcome
+	for _, via := range e.kindPair() {
+		m.r.Distinct(b.name + "|resplit|" + e.edit + "@" + via)
+		o = m.judgeB(e.with(via), mpt, merr == nil)
+		if o != nil && o.clean() {
+			m.noteAccepted(e.with(via), payload)
+		}
 	}
 	m.r.SampleN("b:resplit", 2, map[string]any{"oracle": "b", "file": b.name, "edit": e.edit, "model_accepts": merr == nil, "reader": fmt.Sprint(o)})
 }
@@ -659,8 +669,8 @@ type acceptedRec struct {
 // different payloads under one stream key were accepted with the same
 // plaintext. This part of the oracle does not use the model.
 func (m *monitor) noteAccepted(e *edited, payload []byte) {
-	src := &segReader{segs: e.segs, fill: true}
-	rd, err := age.Decrypt(src, m.id)
+	kind, _ := e.delivery()
+	rd, err := age.Decrypt(openSource(e.segs, kind), m.id)
 	if err != nil {
 		return
 	}
@@ -755,6 +765,7 @@ func (m *monitor) stageCrash(jobs *[]job) {
 	}
 	rcp := keys.P("X1").Recipient
 	for _, n := range lens {
+		n := n // captured by the jobs below (go.mod language version < 1.22)
 		pt, ptDesc := m.plaintext(n)
 		// learn the write-call pattern of an undisturbed run
 		ow := &mon.ObservingWriter{}
@@ -867,6 +878,7 @@ func (m *monitor) crashCase(n int, pt []byte, ptDesc string, fullLen int, sp cra
 	left := append([]byte{}, fw.Buf...)
 	b := &base{name: name, origin: "age.Encrypt interrupted", pt: pt, ptDesc: ptDesc, file: nil, hdrLen: refage.HeaderEnd(left)}
 	e := &edited{base: b, class: "crash-point", edit: sp.String(), segs: [][]byte{left}}
+	e = e.with(e.kinds()[0])
 	m.r.Distinct(name + "|crash|" + sp.String())
 	if fw.Fired > 0 {
 		m.r.Count("crash_faults_fired", 1)
@@ -905,5 +917,3 @@ func (m *monitor) crashCase(n int, pt []byte, ptDesc string, fullLen int, sp cra
 	m.r.SampleN("a:crash", 2, map[string]any{"oracle": "a", "file": name, "crash": sp.String(), "writer_error": fmt.Sprint(werr),
 		"bytes_left_behind": len(left), "complete_file_len": fullLen, "observed": o.String()})
 }
-
-var _ = rand.Int
